@@ -488,7 +488,7 @@ def classify(d):
         return "context", "a context / rule pointer handed to a C callback is not the one the client registered"
     if x == "dbrow" or y == "dbrow" or x == "dbepoch" or y == "dbepoch":
         return "persisted-state", "the database written through the C interface differs from the one written through the C++ interface"
-    if x == "valid" or y == "valid":
+    if (x == "valid" and y in ("valid", "create", "start", "status")) or (y == "valid" and x in ("create", "start", "status")):
         return "is-result-valid", "is_result_valid is not consulted exactly when the C++ twin's isResultValid is, with the same value bytes and answer"
     if x == "status" or y == "status":
         return "update-status", "update_status reports a different status kind than updateStatus"
